@@ -79,7 +79,11 @@ func (g *G) goOnly(thorough bool) {
 		}
 		bad := ""
 		for _, p := range ps {
-			k, err := openEnvelope(t.kek, ans.keys[p.idx])
+			own := q.sender
+			if p.idx == 4 {
+				own = a.asLabel
+			}
+			k, err := openEnvelope(t.kek, own, ans.keys[p.idx])
 			if err != nil {
 				bad = keyNames[p.idx] + ": " + err.Error()
 				break
